@@ -53,7 +53,11 @@ _saved = {}
 def reset_memento_globals():
     """Make path n+1 independent of path n: call stack, per-call mutexes, version cache,
     function registry."""
-    _runner_local._memento_fn_mutex.clear()
+    tbl = getattr(_runner_local, "_memento_fn_mutex", None)
+    for meth in ("clear", "cache_clear"):  # whatever kind of table the per-invocation locks live in
+        if hasattr(tbl, meth):
+            getattr(tbl, meth)()
+            break
     _call_stack._call_stack_thread_local.__dict__.pop("call_stack", None)
     MementoFunction._global_fn_generation = 0
     MementoFunction._global_fn_version_cache.clear()
